@@ -179,6 +179,8 @@ def main(chk, replay=None):
     if not chk.quick:
         heap_part(chk, 'C20', hr.Store(float_file=True))
     file_level(chk)
+    from harness import session
+    session.run(chk, 'C20')          # spec/Session.tla: the property inside whole analysis sessions
     chk.exhaustive = True
 
 
